@@ -186,3 +186,20 @@ reg("C28", "fault_enumeration", "E5b",
     "Submitter(worker=...)(task) path: success iff COMPLETED and a good result exists; FAILED => error; CANCELLED/TIMEOUT/"
     "PREEMPTED/eviction => requeue or resubmission and not failed; every user option exactly once on every submit command line.",
     "Polling sleeps are zero-delay; a reference verdict is computed from the transcript of questions and answers only; missing accounting only forbids reporting success.")
+
+reg("C23", "exploration", "E1",
+    "bounded exhaustive enumeration of hostile strings x placements, observed by really executing an argv-echo program",
+    "Every string of length 1-2 (thorough 1-3) over {a, space, tab, ', \", \\, $, *, ;, e-acute, newline} in seven placements "
+    "(positional str, templated argstr, list element with blank and comma separators, File name, repeated MultiInputObj flag, "
+    "pathlib.Path field): the task really runs `python -c 'print(json.dumps(sys.argv[1:]))'` through the native environment and the "
+    "printed argv (which must equal the argv seen at the execute seam) must contain the element verbatim as its own entry, or "
+    "verbatim inside the entry built by its argstr/separator.",
+    "Empty string, NUL, '/', braces and brackets are outside the alphabet; thorough observes most length-3 placements at the seam after showing seam == process on the executed ones.")
+reg("C25", "exploration", "E1",
+    "bounded exhaustive enumeration of command-line templates against a reference template reader and argv builder",
+    "All templates of 1-3 tokens over 18 concrete token forms of the documented grammar (types, ?, +, *, defaults, outputs, "
+    "path templates, options, flags) and all 4-6 token templates over a 4-token pool (thorough: all 4-token sequences over the 14 "
+    "documented forms): the generated class's fields (type, optional, multi, default/mandatory, output, path_template, argstr) must "
+    "equal the reference reader's, and for two value assignments (all fields set / only mandatory) the argv recorded at the execute "
+    "seam must be executable + token contributions in template order.",
+    "Reference vt/ref/template.py written from the shell.define docstring and tutorial; ill-typed defaults such as <n=3> for a file may be refused.")
